@@ -160,6 +160,7 @@ def run(check, an: Analysis):
                        CONCURRENT in summ.may_raise, where_fn(aexit.fn),
                        'a normally ending body can still fail with the children\'s '
                        'failures')
+    _scope.check_suppression(check, an, 'E')
     prop = an.callee(SCOPE, '_propagate_exceptions')
     for path in an.paths(prop):
         for index, event in enumerate(path.events):
